@@ -310,8 +310,41 @@ def run(ctx, anchors=None):
                      ((f.rec, pty, miss[0][0], miss[0][1]) if miss else (f.rec, pty, "", "")))
     ctx.floor("R13.6", nconv, 2, "converting constructors between CTransaction and CMutableTransaction")
 
+    # ---- R13.7 the immutable and the mutable transaction are two views of one encoding: a query both answer from the same members
+    # (which decides, for one, whether the witness form is written) is the same function of them. Sibling agreement by G-SYM: the
+    # sets of (decided conditions, result) of the two bodies are equal. The table is explicit: GetHash legitimately differs
+    # (cached vs. computed).
+    ctx.rule("R13.7", "CTransaction and CMutableTransaction answer the shared queries identically (sibling agreement)")
+    from .. import symx as _sx13
+    for q in ("HasWitness",):
+        pair = []
+        for rec in ("CTransaction", "CMutableTransaction"):
+            fs = [g for g in fb.funcs.values() if g.name == rec + "::" + q and g.body is not None]
+            if not fs:
+                raise AnalysisBroken("R13.7: %s::%s not found" % (rec, q))
+            X13 = _sx13.Explorer(prog, inline=lambda fn, n_: False, transparent=lambda n_: True)
+            try:
+                outs = X13.explore(fs[0], this=("a", "this"), limit=400)
+            except _sx13.Unsupported as e:
+                ctx.note("R13.7: %s::%s not explored (%s)" % (rec, q, str(e)[:60]))
+                pair = None
+                break
+            pair.append((fs[0], {(o.status, _sx13.show(o.ret) if o.ret is not None else "", tuple(sorted((_sx13.show(t), v) for (t, v) in o.conds))) for o in outs}))
+        if pair is None:
+            continue
+        ctx.site(2)
+        algo = [any(any(a_ + "(" in r_[1] for a_ in ("any_of", "none_of", "all_of", "find_if", "count_if", "accumulate")) for r_ in p_[1]) for p_ in pair]
+        if algo[0] != algo[1]:
+            ctx.note("R13.7: one %s is a loop, the other a library algorithm over a lambda (an uninterpreted term): not comparable, no verdict" % q)
+            continue
+        only_a, only_b = pair[0][1] - pair[1][1], pair[1][1] - pair[0][1]
+        ctx.inst(not only_a and not only_b, "R13.7", "siblings-agree:" + q, pair[0][0].loc(), "%s is the same function of the members in both classes (%d outcomes)" % (q, len(pair[0][1])),
+                 "CTransaction::%s and CMutableTransaction::%s differ: only the former has %s; only the latter has %s - a transaction changes its answer (and with it its serialised form) when converted"
+                 % (q, q, "; ".join("%s when %s" % (r_[1][:40], r_[2]) for r_ in sorted(only_a)[:2])[:160], "; ".join("%s when %s" % (r_[1][:40], r_[2]) for r_ in sorted(only_b)[:2])[:160]))
+
 
 MUTANTS = [
+    dict(name="haswitness-siblings-disagree", file="primitives/transaction.h", after="class CTransaction", find="            if (!vin[i].scriptWitness.IsNull()) {\n                return true;\n            }\n        }\n        return false;", replace="            if (vin[i].scriptWitness.IsNull()) {\n                return false;\n            }\n        }\n        return true;", expect=["R13.7:siblings-agree:HasWitness"]),
     dict(name="conversion-drops-locktime", file="primitives/transaction.cpp", find="CMutableTransaction::CMutableTransaction(const CTransaction& tx) : vin(tx.vin), vout(tx.vout), nVersion(tx.nVersion), nLockTime(tx.nLockTime) {}", replace="CMutableTransaction::CMutableTransaction(const CTransaction& tx) : vin(tx.vin), vout(tx.vout), nVersion(tx.nVersion), nLockTime(0) {}", expect=["R13.6:copies-all-fields:CMutableTransaction"]),
     dict(name="conversion-swaps-version-and-locktime", file="primitives/transaction.cpp", find="CTransaction::CTransaction(const CMutableTransaction& tx) : vin(tx.vin), vout(tx.vout), nVersion(tx.nVersion), nLockTime(tx.nLockTime)", replace="CTransaction::CTransaction(const CMutableTransaction& tx) : vin(tx.vin), vout(tx.vout), nVersion(tx.nLockTime), nLockTime(tx.nVersion)", expect=["R13.6:copies-all-fields:CTransaction"]),
     dict(name="writer-vout-before-vin", file="primitives/transaction.h", find="    s << tx.vin;\n    s << tx.vout;\n    if (flags & 1) {", replace="    s << tx.vout;\n    s << tx.vin;\n    if (flags & 1) {", expect=["R13.1:mirror", "R13.1:format"]),
